@@ -24,13 +24,28 @@ var endNames = []string{"half-close", "close", "reset", "reset-reported-once"}
 
 // cutRun serves stream[:cut] of a pipeline and then ends the stream in the given mode.
 // chunk: 0 = the whole prefix at once, otherwise seeded chunking from the tape.
+// c11Stall > 0: the client of the next mini-runs never reads its replies, behind a window of that many bytes.
+var c11Stall int
+
 func cutRun(tape *sim.Tape, o *Outcome, mk func() []*wl.Req, cut int, mode int, chunk int, dropTail int) *connRun {
 	c := newConnRun(tape, o)
+	// a read of the key "big" is answered with a large value (in every mini-run alike)
+	c.D.Result = func(call *wl.Call) (*resp.Value, error) {
+		if call.Method == "Get" && strings.Contains(call.Sig, "\"big\"") {
+			v := resp.Bs(strings.Repeat("B", 70000))
+			return &v, nil
+		}
+		return wl.DefaultResult(call)
+	}
 	c.S.NoLog = o.Log != nil // only the first mini-run of a tape is logged
 	c.chunkMode = chunk
 	reqs := mk()
 	c.setReqs(reqs)
 	c.start()
+	if c11Stall > 0 {
+		c.P.Dir(1).Window = c11Stall
+		c.stalled = true
+	}
 	deliverable := cut
 	if mode == endReset && dropTail > 0 {
 		if dropTail > cut {
@@ -233,6 +248,10 @@ func runC11(t *testing.T, tape *sim.Tape, tier string) *Outcome {
 		protoReqs[0].Idx = 0
 		big.Idx = 1
 		protoReqs = append(protoReqs, big)
+		// ... followed by a read of that value (a large reply) and two more small requests
+		for i, a := range [][]string{{"GET", "big"}, {"SET", "tail1", "v"}, {"SET", "tail2", "v"}} {
+			protoReqs = append(protoReqs, &wl.Req{Idx: 2 + i, Name: a[0], Args: a, Bytes: resp.Cmd(a...), Class: "valid"})
+		}
 		base := len(protoReqs[0].Bytes)
 		pstart := base + len(big.Bytes) - (L + 2)
 		end := base + len(big.Bytes)
@@ -450,6 +469,17 @@ func runC11(t *testing.T, tape *sim.Tape, tier string) *Outcome {
 			check(cut, mode, 0, 0)
 		}
 	}
+	if bigMode && len(o.Viol) == 0 {
+		// the same pipeline sent by a client that never reads its replies: the large reply blocks behind a small
+		// window, then the client closes; the requests received completely behind it are executed all the same
+		c11Stall = 64 + tape.Draw(8000, "stallwindow")
+		// (only the close whose already delivered bytes stay readable: a reset may legitimately destroy what the
+		// server has not read yet)
+		check(total, endClose, 0, 0)
+		check(total, endClose, seeded, 0)
+		c11Stall = 0
+		o.stat("pipelines_with_a_client_that_never_reads", 1)
+	}
 	for cut := 0; !bigMode && cut <= total && len(o.Viol) == 0; cut++ {
 		for mode := 0; mode < 4; mode++ {
 			check(cut, mode, 0, 0)
@@ -470,7 +500,7 @@ func init() {
 	register(&Check{
 		ID: "C11", Bubble: true, Run: runC11,
 		Runs:   map[string]int{"quick": 176, "thorough": 5000},
-		Rule:   "per generated pipeline (1..4 valid requests, <= 420 bytes, in a quarter of them some arguments sent as simple strings or (numeric ones) as integer-typed elements, one in six with an additional request of 17..48 arguments): every byte offset 0..len x {half-close, close, reset, reset whose error only one read reports (then end of stream, as on Linux)} x 2 delivery schedules (whole prefix, seeded chunking), plus one reset per offset that drops a drawn amount of undelivered bytes - enumerated completely per pipeline; one pipeline in eight instead ends with a 70 KB text value of CRLF-terminated lines whose cuts are sampled at structural places (after embedded line ends, around powers of two of the payload, inside the terminator); every second run goes through the TLS port instead: a real crypto/tls client (1.2 or 1.3) writes a pipeline of complete requests, optionally a partial one, and ends its stream at once (close_notify or close right behind the last record); pipelines are sampled; distinct = distinct (pipeline, offset, end mode, schedule, drop) tuples; every case ends a stream so all are non-trivial",
+		Rule:   "per generated pipeline (1..4 valid requests, <= 420 bytes, in a quarter of them some arguments sent as simple strings or (numeric ones) as integer-typed elements, one in six with an additional request of 17..48 arguments): every byte offset 0..len x {half-close, close, reset, reset whose error only one read reports (then end of stream, as on Linux)} x 2 delivery schedules (whole prefix, seeded chunking), plus one reset per offset that drops a drawn amount of undelivered bytes - enumerated completely per pipeline; one pipeline in eight instead ends with a 70 KB text value of CRLF-terminated lines whose cuts are sampled at structural places (after embedded line ends, around powers of two of the payload, inside the terminator), followed by a read of that value and two small requests, and sent once more by a client that never reads its replies (the large reply blocks behind a small window, then the client closes); every second run goes through the TLS port instead: a real crypto/tls client (1.2 or 1.3) writes a pipeline of complete requests, optionally a partial one, and ends its stream at once (close_notify or close right behind the last record); pipelines are sampled; distinct = distinct (pipeline, offset, end mode, schedule, drop) tuples; every case ends a stream so all are non-trivial",
 		Real:   []string{"redis.Server connection loop, parser, dispatch, executors, connection registry"},
 		Stub:   []string{"transport: simulated net.Conn with FIN / full close / RST", "handler: recording double"},
 		Assume: []string{"the expected handler calls of a completely received request are those of the fault-free run of the same pipeline"},
